@@ -57,8 +57,8 @@ func runC15(c *Ctx) {
 	ms := c.P.SSA.MethodSets.MethodSet(types.NewPointer(tblT))
 	for i := 0; i < ms.Len(); i++ {
 		fn := c.P.SSA.MethodValue(ms.At(i))
-		if fn == nil || fn.Blocks == nil {
-			continue
+		if fn == nil || fn.Blocks == nil || c.P.IsNewHelper(fn) {
+			continue // helpers outside the vocabulary never fill a role
 		}
 		sig := fn.Signature
 		switch {
@@ -304,6 +304,48 @@ func runC15(c *Ctx) {
 				okM, okW := guarded(u, s, ef.Cond, el, host)
 				c.Check(okM && okW, "C15.R1", key+" (generic path, list "+el.Args[0].Aux+")", ef.Pos, "reach condition implies Match(rule, hostname) and !isWhitelisted(hostname, rule)",
 					fmt.Sprintf("a generic rule can be returned without both checks (Match on the path: %v — rules with only negated domains are generic, so ~example.org##.x would apply on example.org; exception test on the path: %v)", okM, okW))
+			case el.Op == "index" && (el.Args[0].Op == "loopphi" || el.Args[0].Op == "loopval" || el.Args[0].Op == "append"):
+				// elements of a list that a helper filtered out of the generic list first: every
+				// contribution to that list is judged where it is appended
+				var listV ssa.Value
+				for _, sub := range append([]*Summary{s}, g.Subs...) {
+					for v, e := range sub.Env {
+						if e == el.Args[0] {
+							if _, isPhi := v.(*ssa.Phi); isPhi || listV == nil {
+								listV = v
+								_ = sub
+							}
+						}
+					}
+				}
+				okAll := listV != nil
+				nEm := 0
+				if listV != nil {
+					for _, sub := range append([]*Summary{s}, g.Subs...) {
+						if sub.Env[listV] != el.Args[0] {
+							continue
+						}
+						ems, bases := traceAppends(g, AV{sub, listV})
+						if len(bases) != 0 {
+							okAll = false
+						}
+						for _, em := range ems {
+							nEm++
+							if len(em.Elems) != 1 || em.Elems[0].Op != "index" || em.Elems[0].Args[0].Op != "field" {
+								okAll = false
+								continue
+							}
+							okM, okW := guarded(u, s, em.RC, em.Elems[0], host)
+							if !okM || !okW {
+								okAll = false
+							}
+						}
+						break
+					}
+				}
+				genericEm = append(genericEm, ef.Cond)
+				c.Check(okAll && nEm > 0, "C15.R1", key+" (generic path, through a filtered list)", ef.Pos, "every element put into the intermediate list is appended under Match(rule, hostname) and !isWhitelisted(hostname, rule)",
+					"a generic rule can reach the result through an intermediate list without both checks")
 			default:
 				c.Fail("C15.R1", key, ef.Pos, "UNDECIDED: emitted value of unknown provenance: "+clip(u.Show(el), 100))
 			}
